@@ -115,7 +115,12 @@ class PhasePredictor(QTable):
 
         span_ends = self["tmid"] + self["span"] / 2
         # Compare MJDs on one time scale (times may be given in e.g. TAI or TT).
-        index = np.searchsorted(span_ends.mjd, getattr(times, span_ends.scale).mjd)
+        # Rows need not be in time order (e.g. after ``predictor[::-1]``).
+        order = np.argsort(span_ends.mjd)
+        index = np.searchsorted(
+            span_ends.mjd, getattr(times, span_ends.scale).mjd, sorter=order
+        )
+        index = order[index]
         dt = (times - self["tmid"][index]).to_value(u.s)
         return index, dt
 
@@ -190,7 +195,8 @@ class PhasePredictor(QTable):
 
         if guess is None:
             ph_end = (self(self["tmid"] + self["span"] / 2) - phase).value
-            index = np.searchsorted(ph_end, 0)
+            order = np.argsort(ph_end)
+            index = order[np.searchsorted(ph_end, 0, sorter=order)]
             guess = self["tmid"][index]
 
         x = scipy.optimize.root_scalar(func, x0=0, fprime=fprime)
